@@ -7752,6 +7752,7 @@ jdf_generate_code_iterate_successors_or_predecessors(const jdf_t *jdf,
     jdf_dataflow_t *fl;
     jdf_dep_t *dl;
     int flowempty, flowtomem;
+    char *last_local_type = NULL;
     string_arena_t *sa1 = string_arena_new(64);
     string_arena_t *sa2 = string_arena_new(64);
     string_arena_t *sa_ontask     = string_arena_new(64);
@@ -7830,6 +7831,7 @@ jdf_generate_code_iterate_successors_or_predecessors(const jdf_t *jdf,
                 "    data.data   = this_task->data._f_%s.data_out;\n"
                 "    data.data_future  = NULL;\n",
                 fl->varname);
+        free(last_local_type); last_local_type = NULL;
 
         for(dl = fl->deps; dl != NULL; dl = dl->next) {
             if( !(dl->dep_flags & flow_type) ) continue;
@@ -7926,6 +7928,12 @@ jdf_generate_code_iterate_successors_or_predecessors(const jdf_t *jdf,
             }
 
             string_arena_add_string(sa_datatype,"  if (action_mask & (PARSEC_ACTION_RESHAPE_ON_RELEASE | PARSEC_ACTION_RESHAPE_REMOTE_ON_RELEASE | PARSEC_ACTION_SEND_REMOTE_DEPS)) {\n");
+            if( (NULL != last_local_type) && strcmp(last_local_type, string_arena_get_string(sa_tmp_type)) ) {
+                /* The reshape type changes: the promise set up for the previous dependencies must not be shared
+                 * (parsec_create_reshape_promise relies on data->data_future being NULL in that case). */
+                string_arena_add_string(sa_datatype, "    data.data_future  = NULL;\n");
+            }
+            free(last_local_type); last_local_type = strdup(string_arena_get_string(sa_tmp_type));
             jdf_generate_code_fillup_datatypes(sa_tmp_arena,    NULL,
                                                sa_tmp_type,     NULL,
                                                sa_tmp_displ,    NULL,
@@ -8109,6 +8117,7 @@ jdf_generate_code_iterate_successors_or_predecessors(const jdf_t *jdf,
     coutput("  (void)data;(void)nc;(void)es;(void)ontask;(void)ontask_arg;(void)rank_dst;(void)action_mask;\n");
     coutput("}\n\n");
 
+    free(last_local_type);
     string_arena_free(sa_ontask);
     string_arena_free(sa1);
     string_arena_free(sa2);
